@@ -34,6 +34,17 @@ def _run_variant(args):
     prop, root, rel_edits = args
     base = Repo(root)
     overrides: Dict[str, str] = {}
+    if rel_edits == "__REFORMAT__":
+        # generic twin: every program module re-emitted by ast.unparse (comments gone, layout and line numbers changed)
+        import ast as _ast
+        for rel, m in base.modules.items():
+            if rel.startswith(("tests/", "scripts/", "experiments/")):
+                continue
+            try:
+                overrides[rel] = _ast.unparse(_ast.parse(m.source)) + "\n"
+            except Exception:
+                pass
+        rel_edits = {}
     for rel, edits in rel_edits.items():
         m = base.modules.get(rel)
         if m is None:
@@ -66,7 +77,7 @@ def run(prop: str, ctx: Context, seed: int) -> int:
     except ModuleNotFoundError:
         spec = None
     mutants = getattr(spec, "MUTANTS", [])
-    twins = getattr(spec, "TWINS", [])
+    twins = list(getattr(spec, "TWINS", [])) + [{"name": "whole program re-emitted by ast.unparse (layout, comments and line numbers change)", "edits": "__REFORMAT__"}]
     jobs = [(prop, ctx.repo.root, m["edits"]) for m in mutants] + [(prop, ctx.repo.root, t["edits"]) for t in twins]
     with ProcessPoolExecutor(max_workers=min(16, max(1, len(jobs)))) as ex:
         results = list(ex.map(_run_variant, jobs))
